@@ -26,6 +26,16 @@ impl LintPass for GarbageInputValueCheck {
                         ranges.append(&mut ranges_tmp);
                     }
                     for (user, range) in ranges {
+                        // A saved register that is read while it still holds the value its
+                        // function was entered with is reported by CalleeSavedGarbageReadCheck
+                        // (the program only gets there when a function is its first instruction);
+                        // the same read must not be reported twice
+                        if Register::saved_set().contains(range.get())
+                            && user.uses_memory_location().is_none()
+                            && user.reg_values_in().is_original_value(*range.get())
+                        {
+                            continue;
+                        }
                         if reported.insert((user.node().id(), range.range())) {
                             errors.push(LintError::InvalidUseBeforeAssignment(range.clone()));
                         }
